@@ -75,11 +75,52 @@ def run(tier):
         exits = info.get('exit_snaps') or []
         if not exits:
             raise AnalysisBroken('no exit state recorded for the Emit loop')
-        for st in exits:
-            done = st.prove_le(n_req, k) or st.prove_le(cap, k)
-            rep.check(done, 'R06.6', 'loop|complete' + tag,
-                      'the descriptor loop is left after %s iteration(s) although neither the Emit\'s count BE16(frame[32..33]) = %s nor the capacity %s is known to be reached: '
-                      'descriptors the Emit carries are not executed' % (st.dom(k), st.dom(n_req), st.dom(cap)), function='parseEmit', file=fnf)
+        # a final descriptor executed after the loop (peeled last iteration): the effects that follow the loop in the cell's
+        # final states; it counts as iteration number k_exit
+        tails = []
+        for stf, _ret in res['topo.emit']:
+            if any(e[0] == 'malloc-failed' for e in stf.trace):
+                continue
+            idx = [i_ for i_, e in enumerate(stf.trace) if e[0] == 'loop' and e[1] == lid[0]]
+            after = stf.trace[idx[-1] + 1:] if idx else ()
+            if not idx and not any(str(t_) == 'exit:' + lid[0] or str(t_).startswith('next:') for t_ in stf.tags):
+                # the loop ran zero times on this path (or was never reached): everything the path did counts as "after"
+                after = stf.trace
+            after = tuple(e for e in after if e[0] != 'last-iteration')
+            if any(e[0] == 'send' for e in after):
+                tails.append((stf, after))
+        peeled = bool(tails)
+        if peeled:
+            # the other paths through the loop are tails too (a final descriptor of unknown kind yields nothing, as in the loop)
+            for stf, _ret in res['topo.emit']:
+                if any(stf is t_[0] for t_ in tails) or any(e[0] == 'malloc-failed' for e in stf.trace):
+                    continue
+                idx = [i_ for i_, e in enumerate(stf.trace) if e[0] == 'loop' and e[1] == lid[0]]
+                if idx:
+                    tails.append((stf, tuple(e for e in stf.trace[idx[-1] + 1:] if e[0] != 'last-iteration')))
+        if MISSING_LAST and not peeled:
+            rep.fail('R06.4', 'ack|missing-on-last' + tag, 'no ACK is sent in an iteration that may be the last descriptor (and no final descriptor is executed after the loop)',
+                     function='sendProbeMsg', file=fnf)
+        del MISSING_LAST[:]
+        one = C(1)
+        for stf, after in tails:
+            check_iteration(rep, fs, stf, after, k, tag + '|tail', 'break')
+            rep.check(stf.prove_lt(k, n_req) and stf.prove_lt(k, cap), 'R06.6', 'tail|within-count' + tag,
+                      'the descriptor executed after the loop has index %s, not known to be below the Emit\'s count %s and the capacity %s' % (stf.dom(k), stf.dom(n_req), stf.dom(cap)),
+                      function='parseEmit', file=fnf)
+        k1 = ('add', k, one)
+        if peeled:
+            # (on the loop's own exit states: the cell's final states have merged the clamped and the unclamped branch)
+            for st in exits:
+                rep.check(st.prove_le(n_req, k1) or st.prove_le(cap, k1), 'R06.6', 'tail|complete' + tag,
+                          'with the loop left after %s iteration(s) and one final descriptor after it, neither the Emit\'s count %s nor the capacity %s is known to be reached'
+                          % (st.dom(k), st.dom(n_req), st.dom(cap)), function='parseEmit', file=fnf)
+        if not peeled:
+            for st in exits:
+                done = st.prove_le(n_req, k) or st.prove_le(cap, k)
+                rep.check(done, 'R06.6', 'loop|complete' + tag,
+                          'the descriptor loop is left after %s iteration(s) although neither the Emit\'s count BE16(frame[32..33]) = %s nor the capacity %s is known to be reached: '
+                          'descriptors the Emit carries are not executed' % (st.dom(k), st.dom(n_req), st.dom(cap)), function='parseEmit', file=fnf)
         # an Emit is executed whenever its sender may be the active mapper: every path through the Emit cell reaches the
         # descriptor loop, unless the responder is out of memory or knows the sender is NOT the active mapper
         # (a mapper is recorded and its real address differs from the Emit's real source)
@@ -94,6 +135,10 @@ def run(tier):
                 rep.ok('R06.5')
                 continue
             foreign = st.tags.get('pred:M') is False and st.dom(KNOWN).lo >= 1
+            if st.dom(n_req).hi == 0 or any(e[0] == 'send' for e in st.trace):
+                # an Emit without descriptors, or a single descriptor executed outside the loop
+                rep.ok('R06.5')
+                continue
             rep.check(foreign, 'R06.5', 'emit|dropped' + tag,
                       'a path through the Emit cell returns without walking the descriptors although the sender may be the active mapper '
                       '(mapper recorded: %s; real source equals recorded mapper: %s; path conditions: %s)'
@@ -138,6 +183,9 @@ def apparent_mapper_stable(rep):
                       function='parseFrame', file='lltdResponder/lltdBlock.c')
     if n == 0:
         raise AnalysisBroken('dispatch matrix empty')
+
+
+MISSING_LAST = []
 
 
 def check_iteration(rep, fs, st, trace, k, tag, kind):
@@ -220,6 +268,9 @@ def check_iteration(rep, fs, st, trace, k, tag, kind):
         rcs = [a for a in st.env if a[0] == 'sym' and str(a[1]).startswith('rc.send_frame.')]
         refused = any(st.dom(a).hi < 0 for a in rcs)
         if kind == 'continue' and sent_ok and not refused:
-            rep.check(bool(notlast), 'R06.4', 'ack|missing-on-last' + tag, 'no ACK is sent in an iteration that may be the last descriptor', function='sendProbeMsg', file=fnf)
+            if not notlast:
+                # decided after the loop: the last descriptor may have been taken out of the loop (peeled final iteration)
+                MISSING_LAST.append(tag)
+            rep.ok('R06.4')
         else:
             rep.ok('R06.4')
